@@ -680,10 +680,10 @@ Qed.
 (* non-vacuity: a reachable state (node B after A's ping and peng) whose table does select a next hop *)
 Definition cA : ncfg := {| c_num := 1; c_addr := 1001; c_peer_timeout := 300; c_keepalive := None; c_switch_timeout := 300;
   c_learning := false; c_broadcast := false; c_tap := false; c_claims := [([10;0;1;0], 24)]; c_key := 7; c_trusted := [7];
-  c_algos := {| a_list := [(1, 1)]; a_plain := false |}; c_hkfault := false |}.
+  c_algos := {| a_list := [(1, 1)]; a_plain := false |}; c_advertise := []; c_hkfault := false |}.
 Definition cB : ncfg := {| c_num := 2; c_addr := 1002; c_peer_timeout := 300; c_keepalive := None; c_switch_timeout := 300;
   c_learning := false; c_broadcast := false; c_tap := false; c_claims := [([10;0;2;0], 24)]; c_key := 7; c_trusted := [7];
-  c_algos := {| a_list := [(1, 1)]; a_plain := false |}; c_hkfault := false |}.
+  c_algos := {| a_list := [(1, 1)]; a_plain := false |}; c_advertise := []; c_hkfault := false |}.
 Definition first_send (fx : list effect) : wire := match fx with XSend _ w :: _ => w | _ => WEmpty end.
 Definition salts : list (N * N) := [(salt_key 1 1002, 11); (salt_key 2 1001, 22)].
 Definition ex_evs : list (Z * event) :=
